@@ -2,6 +2,7 @@ package main
 
 import (
 	"bytes"
+	"compress/gzip"
 	"encoding/binary"
 	"errors"
 	"fmt"
@@ -133,6 +134,26 @@ func genMessage(r *rand.Rand, big bool) genMsg {
 		sz = 64*1024 + r.Intn(2*1024*1024)
 	}
 	g.payload = randBytes(r, sz)
+	if r.Intn(8) == 0 {
+		// payloads that LOOK compressed already (an application that compresses its own data, a file
+		// upload): the bare gzip magic, a gzip header stub, a real short gzip stream, magic + noise
+		switch r.Intn(5) {
+		case 0:
+			g.payload = []byte{0x1f, 0x8b, 0x08}
+		case 1:
+			g.payload = []byte{0x1f, 0x8b, 0x08, 0, 0, 0, 0, 0, 0, 0xff}
+		case 2:
+			var zb bytes.Buffer
+			zw := gzip.NewWriter(&zb)
+			zw.Write(randBytes(r, r.Intn(12)))
+			zw.Close()
+			g.payload = zb.Bytes()
+		case 3:
+			g.payload = append([]byte{0x1f, 0x8b, 0x08}, randBytes(r, r.Intn(60))...)
+		default:
+			g.payload = append([]byte{0x1f, 0x8b, 0x08}, randBytes(r, 64+r.Intn(3000))...)
+		}
+	}
 	return g
 }
 
